@@ -886,6 +886,10 @@ def _check_em_conversion(unit, to_unit=None, unit_system=None, registry=None):
             cmks_in_unit = current_mks in unit.dimensions.atoms()
             cmks_in_unit_system = unit_system.units_map[current_mks]
             cmks_in_unit_system = cmks_in_unit_system is not None
+            if not (cmks_in_unit or cmks_in_unit_system):
+                # a Gaussian unit and a unit system without an MKS current: no
+                # hop to SI, the unit system has units for this dimension
+                return ()
             if cmks_in_unit and cmks_in_unit_system:
                 em_map = (None, unit, 1.0)
             else:
